@@ -34,6 +34,6 @@ for k, v in T.items():
     v['files'] = sorted(os.listdir(d))
     v['ran'] = ['tools/seed_eval.sh %s %s  (scratch worktree: demo.py exits 0 without the patch and 1 with it; then `git -C /repo apply patch.diff; ./check %s; git -C /repo checkout -- .`)' % (k, v['property'], v['property']),
                 'full test-suite with the patch applied in a scratch worktree: same 38 passed / 4 baseline failures (see suite_log in this file when recorded)']
-    v['origin'] = 'fresh sub-agent given only the property text and its own scratch worktree'
+    v.setdefault('origin', 'fresh sub-agent given only the property text and its own scratch worktree')
     json.dump(v, open(os.path.join(d, 'meta.json'), 'w'), indent=1)
 print('meta written for', len([k for k in T if os.path.isdir(os.path.join(HERE, 'seeded', k))]))
